@@ -365,3 +365,15 @@ fix: $D
     rewrite.parse(&TypeScript::Tsx).ok()?.compute(&mut ctx)
   }
 }
+
+/// Verification hooks (cargo feature `verif-hooks`).
+#[cfg(feature = "verif-hooks")]
+#[doc(hidden)]
+pub mod verif_hooks {
+  use ast_grep_core::source::Edit;
+  use ast_grep_core::{Language, StrDoc};
+  /// `make_edit` instantiated at `D = StrDoc<L>`
+  pub fn make_edit<L: Language>(old: &[u8], edits: Vec<Edit<String>>, offset: usize) -> Vec<u8> {
+    super::make_edit::<StrDoc<L>>(old, edits, offset)
+  }
+}
